@@ -82,6 +82,9 @@ class Engine {
     // true if a violating run may have damaged the process (no sanitizer in this
     // build): the worker then restarts instead of carrying the damage along
     virtual bool restart_after_violation() const { return false; }
+    // N > 0: every N-th run of a worker is executed in a pristine child process instead
+    // of in the (warm) worker, so that first-use initialisation is also exercised
+    virtual unsigned cold_start_every() const { return 0; }
     // wall-clock backstop per run, for builds without a step budget
     virtual unsigned hang_timeout_s() const { return 60; }
     // extra engine report (json object body without braces) appended to STATS
